@@ -645,6 +645,11 @@ func (s *Server) handleRequest(req *dhcpv4.DHCPv4) (*dhcpv4.DHCPv4, error) {
 		} else if !pool.Contains(requestedIP) {
 			atomic.AddUint64(&s.naksTotal, 1)
 			return s.buildNAK(req, "IP not in pool")
+		} else if !s.addressOfferedTo(mac, requestedIP, pool) {
+			// Being inside the pool is not enough: the address must be the one held for this
+			// client (the one offered to it), not one leased or offered to someone else
+			atomic.AddUint64(&s.naksTotal, 1)
+			return s.buildNAK(req, "IP not offered to this client")
 		}
 	}
 
@@ -858,6 +863,19 @@ func (s *Server) handleRequest(req *dhcpv4.DHCPv4) (*dhcpv4.DHCPv4, error) {
 
 	atomic.AddUint64(&s.acksTotal, 1)
 	return resp, nil
+}
+
+// addressOfferedTo reports whether ip is the address held for the client mac: the one its Nexus
+// subscriber record carries (centrally allocated), or otherwise the one the local pool has
+// allocated to that MAC (the DISCOVER/OFFER allocation; allocated now if the client skipped DISCOVER).
+func (s *Server) addressOfferedTo(mac net.HardwareAddr, ip net.IP, pool *Pool) bool {
+	if s.nexusClient != nil {
+		if sub, ok := s.nexusClient.GetSubscriberByMAC(mac.String()); ok && sub.IPv4Addr != "" {
+			return net.ParseIP(sub.IPv4Addr).Equal(ip)
+		}
+	}
+	owned, err := pool.Allocate(mac)
+	return err == nil && owned.Equal(ip)
 }
 
 // handleRelease handles DHCP RELEASE
